@@ -14,6 +14,7 @@ EXTENDS Naturals, Integers, Sequences, FiniteSets, TLC, Json
 
 CONSTANTS PartN,        \* length of the partitioned array
           PartMax,      \* maximal number of partitions
+          RangeSteps,   \* strides tried by Range (a stride >= 3 makes getitem_range_nowrap carry a phase across partitions)
           MaxSteps, EmitOn
 
 VARIABLES stops, first, hist, done
@@ -31,7 +32,7 @@ ChooseSplit == stops = <<>> /\ stops' \in AllSplits /\ first' = stops' /\ UNCHAN
 Ready == stops # <<>> /\ ~done /\ Len(hist) < MaxSteps
 At == Ready /\ \E i \in (-PartN - 1)..PartN :
         hist' = Append(hist, [op |-> "at", i |-> i, exp |-> IF i >= -PartN /\ i < PartN THEN "same" ELSE "error"]) /\ UNCHANGED <<stops, first, done>>
-Range == Ready /\ \E a \in {-1, 0, 1, PartN}, b \in {0, 2, PartN, PartN + 1}, st \in {1, 2, -1} :
+Range == Ready /\ \E a \in {-1, 0, 1, PartN}, b \in {0, 2, PartN, PartN + 1}, st \in RangeSteps :
         hist' = Append(hist, [op |-> "range", a |-> a, b |-> b, s |-> st, exp |-> "same"]) /\ UNCHANGED <<stops, first, done>>
 Whole == Ready /\ \E o \in {"length", "tojson"} : hist' = Append(hist, [op |-> o, exp |-> "same"]) /\ UNCHANGED <<stops, first, done>>
 Repartition == Ready /\ \E ns \in AllSplits : ns # stops /\ stops' = ns
